@@ -134,6 +134,86 @@ func (e *Emitter) structPkg(t *TT) (*types.Package, error) {
 	return p, nil
 }
 
+// candidates lists possible Go identifiers for a Thrift type name.
+func candidates(thrift string) []string {
+	out := []string{thrift}
+	if thrift != "" && thrift[0] >= 'a' && thrift[0] <= 'z' {
+		out = append(out, string(thrift[0]-32)+thrift[1:])
+	}
+	// CamelCase with underscores squashed
+	var sb strings.Builder
+	up := true
+	for i := 0; i < len(thrift); i++ {
+		c := thrift[i]
+		if c == '_' {
+			up = true
+			continue
+		}
+		if up && c >= 'a' && c <= 'z' {
+			c -= 32
+		}
+		up = false
+		sb.WriteByte(c)
+	}
+	out = append(out, sb.String())
+	return out
+}
+
+// matchStruct says whether a Go struct has exactly the schema's fields (by
+// their json tags, which carry the Thrift field names).
+func matchStruct(st *types.Struct, fields []Field) bool {
+	if st.NumFields() != len(fields) {
+		return false
+	}
+	for i, f := range fields {
+		tag := st.Tag(i)
+		if !strings.Contains(tag, `json:"`+f.Name+`,`) && !strings.Contains(tag, `json:"`+f.Name+`"`) {
+			return false
+		}
+	}
+	return true
+}
+
+// goNameIn resolves the Go identifier of a Thrift struct-like type.
+func goNameIn(p *types.Package, thrift string, fields []Field) string {
+	for _, c := range candidates(thrift) {
+		obj := p.Scope().Lookup(c)
+		if obj == nil {
+			continue
+		}
+		st, ok := obj.Type().Underlying().(*types.Struct)
+		if ok && matchStruct(st, fields) {
+			return c
+		}
+	}
+	return ""
+}
+
+func (e *Emitter) factsOf(t *TT) []Field {
+	m := e.Mods[t.Module]
+	if m == nil {
+		return nil
+	}
+	for _, ty := range m.Types {
+		if ty.Name == t.Name && ty.Kind != "enum" && ty.Kind != "typedef" {
+			return ty.Fields
+		}
+	}
+	return nil
+}
+
+func (e *Emitter) goName(t *TT) string {
+	p, err := e.structPkg(t)
+	if err != nil {
+		panic(err)
+	}
+	n := goNameIn(p, t.Name, e.factsOf(t))
+	if n == "" {
+		panic(fmt.Sprintf("no Go type for %s in %s", t.Name, p.Path()))
+	}
+	return n
+}
+
 func (e *Emitter) structFn(prefix string, t *TT) string {
 	p, err := e.structPkg(t)
 	if err != nil {
@@ -143,7 +223,7 @@ func (e *Emitter) structFn(prefix string, t *TT) string {
 	if q != "" {
 		q += "."
 	}
-	return q + prefix + t.Name
+	return q + prefix + e.goName(t)
 }
 
 // helper returns the name of a (memoised) helper function for (kind, tt, gt).
@@ -268,7 +348,8 @@ func (e *Emitter) treeExpr(t *TT, gt types.Type, x string) string {
 		if q != "" {
 			q += "."
 		}
-		return fmt.Sprintf("%sZzTree_%s((*%s%s)(%s))", q, t.Name, q, t.Name, x)
+		gn := e.goName(t)
+		return fmt.Sprintf("%sZzTree_%s((*%s%s)(%s))", q, gn, q, gn, x)
 	case "list", "set", "map":
 		name := e.helper("Tree", t, gt, func(name string) {
 			var sb bytes.Buffer
@@ -314,7 +395,8 @@ func (e *Emitter) validExpr(t *TT, gt types.Type, x string) string {
 		if q != "" {
 			q += "."
 		}
-		return fmt.Sprintf("(%s != nil && %sZzValid_%s((*%s%s)(%s)))", x, q, t.Name, q, t.Name, x)
+		gn := e.goName(t)
+		return fmt.Sprintf("(%s != nil && %sZzValid_%s((*%s%s)(%s)))", x, q, gn, q, gn, x)
 	case "binary":
 		return fmt.Sprintf("(%s != nil)", x)
 	case "list", "set", "map":
@@ -392,17 +474,18 @@ func (e *Emitter) EmitPackage(mod *Module) ([]byte, error) {
 		if ty.Kind != "struct" && ty.Kind != "union" && ty.Kind != "exception" && ty.Kind != "result01" {
 			continue
 		}
-		obj := e.cur.Scope().Lookup(ty.Name)
-		if obj == nil {
+		gname := goNameIn(e.cur, ty.Name, ty.Fields)
+		if gname == "" {
 			e.Skipped = append(e.Skipped, mod.Name+"."+ty.Name+": Go type not found under that name")
 			continue
 		}
+		obj := e.cur.Scope().Lookup(gname)
 		st, ok := obj.Type().Underlying().(*types.Struct)
 		if !ok || st.NumFields() != len(ty.Fields) {
 			e.Skipped = append(e.Skipped, mod.Name+"."+ty.Name+": field count differs between schema and Go struct")
 			continue
 		}
-		name := ty.Name
+		name := gname
 		complexDefault := false
 		// ZzAny
 		e.pf("func ZzAnyOrNil_%s(d int) *%s {\n\tif d <= 0 || zzlib.VerifChoice(3) == 0 {\n\t\treturn nil\n\t}\n\treturn ZzAny_%s(d)\n}\n\n", name, name, name)
@@ -501,7 +584,8 @@ func (e *Emitter) EmitPackage(mod *Module) ([]byte, error) {
 				if q != "" {
 					q += "."
 				}
-				e.pf("\t%sZzDefaults_%s((*%s%s)(v.%s))\n", q, f.Type.Name, q, f.Type.Name, gf.Name())
+				gn := e.goName(f.Type)
+				e.pf("\t%sZzDefaults_%s((*%s%s)(v.%s))\n", q, gn, q, gn, gf.Name())
 			}
 		}
 		e.pf("}\n\n")
